@@ -95,8 +95,8 @@ func fmtSource(i int, s fmtScen, mod string) string {
 		b.WriteString("}\n")
 	}
 	out := b.String()
-	if s.Ext == "iface" && s.Fmt == "struct" {
-		// the struct format: the custom function takes the converter interface itself
+	if s.Ext == "iface" && s.Fmt != "variables" {
+		// the custom function takes the converter interface itself (it exists as a type in the function format, too)
 		out = strings.Replace(out, "type CI interface {\n\tConv(source A) A2\n}\n\nfunc E(c CI, v int)", "func E(c C, v int)", 1)
 	}
 	return out
